@@ -243,6 +243,12 @@ where
                             }
                         }
                         Ok(None) => {
+                            if *remaining == 0 {
+                                // The whole of the body has been passed to the body decoder and it
+                                // is still waiting for more: the frame is too short for its content.
+                                *state = DownlinkNotificationDecoderState::ReadingHeader;
+                                break Err(FrameIoError::BadFrame(InvalidFrame::Incomplete));
+                            }
                             break Ok(None);
                         }
                         Err(e) => {
